@@ -28,6 +28,7 @@ type ScriptReader struct {
 	pos    int
 	off    int
 	Drawn  int // bytes handed out so far
+	Faults int // errors handed out so far
 }
 
 func (s *ScriptReader) Read(p []byte) (int, error) {
@@ -35,6 +36,7 @@ func (s *ScriptReader) Read(p []byte) (int, error) {
 		c := s.Chunks[s.pos]
 		if c.Err != 0 {
 			s.pos++
+			s.Faults++
 			return 0, ScriptErr{c.Err}
 		}
 		if s.off >= len(c.Data) {
@@ -111,7 +113,7 @@ func ReadAll(cs []Chunk, drw *dialect.ReadWriter, key *frame.V2Key, perCall *[]i
 	}
 	var out []string
 	for i := 0; i < total+2; i++ {
-		before := sr.Drawn - br.Buffered()
+		before := sr.Drawn - br.Buffered() + sr.Faults
 		var fr frame.Frame
 		var err error
 		res := Safe(func() string {
@@ -119,7 +121,7 @@ func ReadAll(cs []Chunk, drw *dialect.ReadWriter, key *frame.V2Key, perCall *[]i
 			return ""
 		})
 		if perCall != nil {
-			*perCall = append(*perCall, (sr.Drawn-br.Buffered())-before)
+			*perCall = append(*perCall, (sr.Drawn-br.Buffered()+sr.Faults)-before)
 		}
 		if res == "panic" {
 			out = append(out, "PANIC")
